@@ -1632,3 +1632,7 @@ mod tests {
         Ok(())
     }
 }
+
+/// Verification hooks: access to the crate-private store API for the external /verif harness.
+#[cfg(maidsafe_safe_network_verif)]
+pub mod verif {}
